@@ -1,0 +1,52 @@
+//! Verification hooks — compiled only with `--cfg ivp_verif`; not part of the public API.
+//!
+//! Exposes the crate-private default output handler of `solve_ivp` so that an external harness can feed it
+//! callback histories directly.
+
+use crate::{
+    Float,
+    dense::StepInterpolant,
+    ivp::IVP,
+    solout::{ControlFlag, SolOut},
+    solve::solout::DefaultSolOut,
+};
+
+/// Thin public wrapper around the default output handler.
+pub struct HandlerProbe<'a, F: IVP>(DefaultSolOut<'a, F>);
+
+impl<'a, F: IVP> HandlerProbe<'a, F> {
+    pub fn new(
+        ode: &'a F,
+        t_eval: Option<Vec<Float>>,
+        collect_dense: bool,
+        first_step: Option<Float>,
+        x0: Float,
+        n_states: usize,
+    ) -> Self {
+        HandlerProbe(DefaultSolOut::new(ode, t_eval, collect_dense, first_step, x0, n_states))
+    }
+
+    /// Forward one solver callback to the handler.
+    pub fn callback(
+        &mut self,
+        xold: Float,
+        x: &mut Float,
+        y: &mut [Float],
+        interpolant: Option<&StepInterpolant<'_>>,
+    ) -> ControlFlag {
+        self.0.solout(xold, x, y, interpolant)
+    }
+
+    /// (t, y, t_events, y_events, dense segments)
+    pub fn into_payload(
+        self,
+    ) -> (
+        Vec<Float>,
+        Vec<Vec<Float>>,
+        Vec<Vec<Float>>,
+        Vec<Vec<Vec<Float>>>,
+        Vec<(Vec<Float>, Float, Float)>,
+    ) {
+        self.0.into_payload()
+    }
+}
